@@ -900,7 +900,10 @@ func minimize(c caseT, class string, budget int) caseT {
 	return cur
 }
 
-var firstFailure string // the first failing case of this process, minimised once (rapid re-runs failing cases while shrinking)
+var (
+	firstFailure string // the first failing case of this process, minimised once (rapid re-runs failing cases while shrinking)
+	firstMinimal *caseT
+)
 
 func check(t fataler, c caseT) {
 	hx.Journal(c) // a Go fatal error (e.g. unlock of an unlocked mutex) kills the process: leave the input behind
@@ -918,9 +921,12 @@ func check(t fataler, c caseT) {
 				if _, merr := checkCase(mc); merr != nil {
 					mb, _ := json.Marshal(mc)
 					firstFailure = fmt.Sprintf("%s\n    fails with: %v", mb, merr)
-					hx.Journal(mc) // the small case is the replay unit
+					firstMinimal = &mc
 				}
 			}
+		}
+		if firstMinimal != nil {
+			hx.Journal(*firstMinimal) // the small case is the replay unit (TestReplayJournal)
 		}
 		t.Fatalf("%v\ncase=%s\nfirst failure of this run, minimised=%s", err, b, firstFailure)
 	}
